@@ -211,6 +211,8 @@ def run(ctx, pid, r, viol, classes=None, nbase=None, cap=None):
                     rng = rcls.from_versions([a.string])
                     if (b in rng) != (x == "eq") or not (a in rng):
                         bad(f"{name}: from_versions([{a.string!r}]) = {rng}: contains {b.string!r} -> {b in rng} ({a.string!r} is {x} {b.string!r}), contains {a.string!r} -> {a in rng}", inputs=inp)
+                    elif not all(v in rcls.from_versions([a.string, b.string]) for v in (a, b)):
+                        bad(f"{name}: from_versions([{a.string!r}, {b.string!r}]) = {rcls.from_versions([a.string, b.string])} does not contain both", inputs=inp)
                     elif x != "eq":
                         lo, hi = (a, b) if x == "lt" else (b, a)
                         n1 = rcls(constraints=[C("GE", lo)]).normalize([lo.string, hi.string])
